@@ -11,10 +11,12 @@ A case is a route list plus a handful of requests:
          | ["e", name, text]      info['match'].get(name) == text  (a predicate that reads the match dictionary)
          | ["m", "GET"|"POST"]    the real request_method predicate
          | ["h", header-name]     the real header predicate (header present)
+         | ["q", [bool…]]         opaque predicate whose outcome differs from request to request (indexed by the position
+                                  of the request in "reqs"): the same mapper / application answers all of them
   INTENT = what the author of the pattern meant, token by token (independent of _compile_route's parsing):
            [["lit", text] | ["ph", name, RX | null, "brace"|"colon"] | ["rest", name] …]; null when the pattern text
            was not produced from tokens (malformed stream) or when the documented grammar reads it differently
-  RX     = ["eps"] | ["chr", c] | ["any"] | ["set", neg, [["c", c] | ["r", lo, hi] | ["e", "d"|"w"|"s"]…]] | ["esc", k, neg]
+  RX     = ["eps"] | ["chr", c] | ["any"] | ["all"] (= (?s:.)) | ["set", neg, [["c", c] | ["r", lo, hi] | ["e", "d"|"w"|"s"]…]] | ["esc", k, neg]
          | ["seq", RX, RX] | ["alt", RX, RX] | ["rep", greedy, min, max|null, RX]
 mode "mapper": RoutesMapper().connect(...) then RoutesMapper.__call__(Request(environ))  (re-connects and static allowed)
 mode "router": Configurator.add_route(...) flat, Router.__call__(environ, start_response), a catch-all view records
@@ -81,6 +83,8 @@ def rx_print(rx):
         return esc_char(rx[1])
     if k == 'any':
         return '.'
+    if k == 'all':
+        return '(?s:.)'
     if k == 'set':
         return '[' + ('^' if rx[1] else '') + ''.join(item_print(i) for i in rx[2]) + ']'
     if k == 'esc':
@@ -90,7 +94,7 @@ def rx_print(rx):
     if k == 'alt':
         return '(?:' + rx_print(rx[1]) + '|' + rx_print(rx[2]) + ')'
     if k == 'rep':
-        body = rx_print(rx[4]) if rx[4][0] in ('chr', 'any', 'set', 'esc', 'alt') else '(?:' + rx_print(rx[4]) + ')'
+        body = rx_print(rx[4]) if rx[4][0] in ('chr', 'any', 'all', 'set', 'esc', 'alt') else '(?:' + rx_print(rx[4]) + ')'
         return body + quant(rx[1], rx[2], rx[3])
     raise ValueError(rx)
 
@@ -112,7 +116,7 @@ def rx_nullable(rx):
     k = rx[0]
     if k == 'eps':
         return True
-    if k in ('chr', 'any', 'set', 'esc'):
+    if k in ('chr', 'any', 'all', 'set', 'esc'):
         return False
     if k == 'seq':
         return rx_nullable(rx[1]) and rx_nullable(rx[2])
@@ -155,7 +159,7 @@ def rx_run(rx, s, i):
     k = rx[0]
     if k == 'eps':
         return [i]
-    if k in ('chr', 'any', 'set', 'esc'):
+    if k in ('chr', 'any', 'all', 'set', 'esc'):
         if i >= len(s):
             return []
         c = s[i]
@@ -163,6 +167,8 @@ def rx_run(rx, s, i):
             ok = c == rx[1]
         elif k == 'any':
             ok = c != '\n'
+        elif k == 'all':
+            ok = True
         elif k == 'set':
             ok = any(item_test(it, c) for it in rx[2]) != rx[1]
         else:
@@ -191,7 +197,7 @@ def rx_sample(rng, rx):
     k = rx[0]
     if k == 'eps':
         return ''
-    if k in ('chr', 'any', 'set', 'esc'):
+    if k in ('chr', 'any', 'all', 'set', 'esc'):
         if k == 'chr':
             return rx[1]
         pool = list('ab1/ .-_Zé日\n0x')
@@ -232,8 +238,10 @@ def gen_rx(rng, depth=0, inrep=False):
         a = rng.random()
         if a < 0.35:
             return ['chr', rng.choice(RX_CHARS)]
-        if a < 0.45:
+        if a < 0.43:
             return ['any']
+        if a < 0.47:
+            return ['all']
         if a < 0.8:
             return ['set', rng.random() < 0.4, [gen_item(rng) for _ in range(rng.randint(1, 3))]]
         return ['esc', rng.choice('dws'), rng.random() < 0.3]
@@ -270,7 +278,7 @@ def spec_split(text):
     return out
 
 
-def all_splits(intent, path, rest_spans_newline=True, budget=20000):
+def all_splits(intent, path, budget=20000):
     """every way the token list reads the whole path, as match dictionaries, in leftmost-greedy backtracking order"""
     WORK[0], WORK[1] = 0, budget
 
@@ -291,8 +299,6 @@ def all_splits(intent, path, rest_spans_newline=True, budget=20000):
             return out
         out = []
         for j in range(i, len(path) + 1):
-            if not rest_spans_newline and '\n' in path[i:j]:
-                break
             for e in go(k + 1, j):
                 out.append([[t[1], 't', spec_split(path[i:j])]] + e)
         return out
@@ -344,6 +350,8 @@ def pred_value(p, env, req):
         return req['method'] == p[1]
     if p[0] == 'h':
         return p[1] in req['headers']
+    if p[0] == 'q':
+        return p[1][req.get('tag', 0) % len(p[1])]
     raise ValueError(p)
 
 
@@ -364,7 +372,7 @@ def canon_env(env):
     return sorted([n, k, v] for n, k, v in env)
 
 
-def expected(case, req, rest_spans_newline=True):
+def expected(case, req):
     """the property, stated on the intents.  None when the oracle does not apply."""
     if any(r['intent'] is None for r in case['routes']):
         return None
@@ -374,7 +382,7 @@ def expected(case, req, rest_spans_newline=True):
     try:
         for i in declared_order(case['routes']):
             r = case['routes'][i]
-            sp = all_splits(r['intent'], path, rest_spans_newline)
+            sp = all_splits(r['intent'], path)
             if sp and all(pred_value(p, sp[0], req) for p in r['preds']):
                 return {'out': {'id': i, 'match': canon_env(sp[0])}, 'splits': [canon_env(e) for e in sp]}
         return {'out': 'none'}
@@ -411,6 +419,7 @@ def blank_environ(req):
            'HTTP_HOST': 'localhost:80', 'QUERY_STRING': ''}
     if req['path'] is not None:
         env['PATH_INFO'] = req['path']
+    env['vf.tag'] = req.get('tag', 0)
     for h in req['headers']:
         env['HTTP_' + h.upper().replace('-', '_')] = '1'
     return env
@@ -436,6 +445,9 @@ def impl_mapper(case):
         elif p[0] == 'e':
             def f(info, request):
                 log.append([rid, k]); return info['match'].get(p[1]) == p[2]
+        elif p[0] == 'q':
+            def f(info, request):
+                log.append([rid, k]); return p[1][request.environ['vf.tag'] % len(p[1])]
         else:
             real = RequestMethodPredicate(p[1], None) if p[0] == 'm' else HeaderPredicate(p[1], None)
 
@@ -468,6 +480,20 @@ def impl_mapper(case):
         except Exception as e:
             out = err_name(e)
         outs.append({'out': out, 'calls': list(log)})
+    # history: the same mapper answers everything again, in reverse order; nothing may have been remembered
+    history, history_calls = [], []
+    for k in reversed(range(len(case['reqs']))):
+        del log[:]
+        try:
+            info = mapper(Request(blank_environ(case['reqs'][k])))
+            out = ('none' if info['match'] is None else 'raised:match-without-route') if info['route'] is None else \
+                {'id': ids.get(id(info['route']), -1), 'match': canon_match(info['match'])}
+        except Exception as e:
+            out = err_name(e)
+        if out != outs[k]['out']:
+            history.append({'req': k, 'first': outs[k], 'again': {'out': out, 'calls': list(log)}})
+        elif list(log) != outs[k]['calls']:
+            history_calls.append({'req': k, 'first': outs[k], 'again': {'out': out, 'calls': list(log)}})
     nmatch = []
     for req in case['reqs']:
         p = decode_wsgi(req['path'])
@@ -476,7 +502,7 @@ def impl_mapper(case):
         except Exception:
             nmatch.append(None)
     return {'compile': compile_, 'regex': regex, 'gen': gen, 'routelist': [ids[id(r)] for r in mapper.routelist],
-            'statics': [ids[id(r)] for r in mapper.static_routes], 'outs': outs, 'nmatch': nmatch}
+            'statics': [ids[id(r)] for r in mapper.static_routes], 'outs': outs, 'nmatch': nmatch, 'history': history, 'history_calls': history_calls}
 
 
 class VfPred:
@@ -493,6 +519,8 @@ class VfPred:
         rid, k, kind, a, b = self.val
         if kind == 'c':
             return a
+        if kind == 'q':
+            return a[request.environ['vf.tag'] % len(a)]
         return info['match'].get(a) == b
 
 
@@ -511,8 +539,8 @@ def impl_router(case):
     def declare_one(config, rid, r):
         kw = {}
         for k, p in enumerate(r['preds']):
-            if p[0] in ('c', 'e'):
-                kw['vf%d' % k] = (rid, k, p[0], p[1], p[2] if len(p) > 2 else None)
+            if p[0] in ('c', 'e', 'q'):
+                kw['vf%d' % k] = (rid, k, p[0], tuple(p[1]) if p[0] == 'q' else p[1], p[2] if len(p) > 2 else None)
             elif p[0] == 'm':
                 kw['request_method'] = p[1]
             else:
@@ -568,7 +596,18 @@ def impl_router(case):
         except Exception as e:
             out = err_name(e)
         outs.append({'out': out})
-    return {'compile': compile_, 'outs': outs}
+    history = []
+    for k in reversed(range(len(case['reqs']))):
+        seen.clear()
+        try:
+            list(app(blank_environ(case['reqs'][k]), lambda status, headers, exc_info=None: None))
+            v = seen.get('v', 'raised:no-view-ran')
+            out = v if isinstance(v, str) else {'id': names.get(v['name'], -1), 'match': v['match']}
+        except Exception as e:
+            out = err_name(e)
+        if out != outs[k]['out']:
+            history.append({'req': k, 'first': outs[k], 'again': {'out': out}})
+    return {'compile': compile_, 'outs': outs, 'history': history}
 
 
 def is_external(pattern):
@@ -624,6 +663,8 @@ def wire_pred(p, req):
         return ['e', codes(p[1]), codes(p[2])]
     if p[0] == 'm':
         return ['c', req['method'] == p[1]]
+    if p[0] == 'q':
+        return ['c', bool(p[1][req.get('tag', 0) % len(p[1])])]
     return ['c', p[1] in req['headers']]
 
 
@@ -660,17 +701,6 @@ def decode_model_out(o):
 # ------------------------------------------------------------------------------------------------ checking one case
 
 
-def classify_rest_newline(case, req, got_out):
-    """F-C01b: the only reason the implementation deviates is that `*rest` (`.*?`) cannot span a line feed"""
-    p = decode_wsgi(req['path'])
-    if p is None or '\n' not in p:
-        return False
-    if not any(r['intent'] and r['intent'][-1][0] == 'rest' for r in case['routes']):
-        return False
-    narrow = expected(case, req, rest_spans_newline=False)
-    return narrow is not None and narrow['out'] == got_out
-
-
 def check_case(case, replies=None):
     """-> (impl result, mismatches, violations, info)"""
     got = impl(case)
@@ -691,6 +721,12 @@ def check_case(case, replies=None):
     if oracle_on and not router and any(c != 'ok' for c in got['compile']):
         viol.append({'case': case, 'impl': {'compile': got['compile']}, 'expected': 'every well-formed pattern compiles',
                      'detail': 'connect() raised for a well-formed pattern'})
+    if got.get('history'):
+        h = got['history'][0]
+        viol.append({'case': case, 'impl': h, 'expected': 'the same outcome whenever the same request is dispatched',
+                     'detail': 'the outcome of a request depends on the requests the mapper answered before it'})
+    if got.get('history_calls') and replies is not None:
+        mism.append({'case': case, 'impl': got['history_calls'][0], 'model': 'the predicates called for a request do not depend on earlier requests'})
     for k, req in enumerate(case['reqs']):
         g = got['outs'][k]['out'] if k < len(got['outs']) else 'raised:no-output'
         exp = expected(case, req) if oracle_on else None
@@ -709,9 +745,8 @@ def check_case(case, replies=None):
                 else:
                     bad = 'the selected route is not the first declared route whose pattern matches the whole path and whose predicates hold'
             if bad:
-                v = {'case': dict(case, reqs=[req]), 'impl': g, 'expected': exp['out'], 'detail': bad}
-                if classify_rest_newline(case, req, g):
-                    v['finding'] = 'F-C01b'
+                # keep the requests answered before this one: the mapper is long-lived (the shrinker drops the idle ones)
+                v = {'case': dict(case, reqs=case['reqs'][:k + 1]), 'impl': g, 'expected': exp['out'], 'detail': bad}
                 viol.append(v)
         if replies is not None and replies[k] is not None:
             mo = replies[k]
@@ -973,6 +1008,14 @@ def gen_reqs(rng, routes, n):
             w = None
         reqs.append({'path': w, 'method': rng.choice(['GET', 'GET', 'POST']),
                      'headers': ['X-A'] if rng.random() < 0.3 else []})
+    # the same path again, later, with other predicate outcomes (a long-lived mapper must not remember)
+    for _ in range(rng.choice([0, 1, 2, 3])):
+        q = dict(rng.choice(reqs))
+        q['method'] = rng.choice(['GET', 'POST'])
+        q['headers'] = ['X-A'] if rng.random() < 0.5 else []
+        reqs.append(q)
+    for i, q in enumerate(reqs):
+        q['tag'] = i
     return reqs
 
 
@@ -983,8 +1026,10 @@ def gen_preds(rng, intent, router):
         for _ in range(n):
             r = rng.random()
             names = [t[1] for t in (intent or []) if t[0] == 'ph']
-            if r < 0.55:
+            if r < 0.3:
                 preds.append(['c', rng.random() < 0.55])
+            elif r < 0.55:
+                preds.append(['q', [rng.random() < 0.55 for _ in range(rng.choice([2, 3, 5]))]])
             elif r < 0.75 and names:
                 preds.append(['e', rng.choice(names), rng.choice(['a', 'v', '12', 'x', 'A'])])
             elif r < 0.9 and not any(p[0] == 'm' for p in preds):
@@ -1343,9 +1388,9 @@ def run(ctx):
                                         'placeholders, *rest, two placeholders in one segment, old-style) x each route with/without a '
                                         'failing predicate x all paths of <= %d segments over {a,b,a.b,aXb,é}, each also with a trailing '
                                         '"/" and a trailing LF' % (2 if ctx.tier == 'quick' else 3)}
-    # the witness of the recorded finding, replayed on the real code
+    # the witness of the repaired finding F-C01b, kept as a regression case (must pass now)
     _, _, wv, _ = check_case(WITNESS_REST_NL)
-    notes.append('witness F-C01b (/a/*rest vs /a/b\\nc): %s' % (['%s -> %s' % (x['impl'], x.get('finding')) for x in wv] or 'no violation'))
+    notes.append('regression F-C01b, repaired by fc43a19 (/a/*rest vs /a/b\\nc): %s' % (['%s' % (x['impl'],) for x in wv] or 'matches, no violation'))
     viol += wv
     # shrink, dedupe known
     out_viol, known_seen = [], set()
